@@ -822,6 +822,22 @@ class Program:
         elif k == 'subscribers':
             self.emit(d, lambda: reg.subscribers(obs, p2))
         elif k == 'kw':
+            if isinstance(prov, InterfaceClass) and self.rng.random() < 0.7:
+                # by keyword, in every order, for a key that has an adapter
+                ok_ = self.rng.choice(self.objs)
+                vkw = self.newval()
+                vkw.ret = True
+                self.emit(d + '[kw:register]', lambda: reg.register([providedBy(ok_)], prov, '', vkw))
+                self.emit(d + '[kw:qa object,provided]', lambda: reg.queryAdapter(object=ok_, provided=prov))
+                self.emit(d + '[kw:qa provided,object]', lambda: reg.queryAdapter(provided=prov, object=ok_, default='D'))
+                self.emit(d + '[kw:qa mixed]', lambda: reg.queryAdapter(ok_, provided=prov, name=''))
+                self.emit(d + '[kw:hook object,provided]', lambda: reg.adapter_hook(object=ok_, provided=prov))
+                self.emit(d + '[kw:hook mixed]', lambda: reg.adapter_hook(prov, object=ok_, default='D'))
+                self.emit(d + '[kw:lookup1]', lambda: reg.lookup1(provided=prov, required=providedBy(ok_)))
+                self.emit(d + '[kw:lookup]', lambda: reg.lookup(provided=prov, required=[providedBy(ok_)], default='D'))
+                self.emit(d + '[kw:lookupAll]', lambda: sorted(map(R, reg.lookupAll(provided=prov, required=[providedBy(ok_)]))))
+                self.emit(d + '[kw:subscriptions]', lambda: list(reg.subscriptions(provided=prov, required=[providedBy(ok_)])))
+                self.emit(d + '[kw:qma]', lambda: reg.queryMultiAdapter(objects=(ok_,), provided=prov))
             self.emit(d + '[kw]', lambda: reg.lookup(required=req, provided=prov, name=name, default='D'))
             self.emit(d + '[kw1]', lambda: reg.lookup1(required=one, provided=prov))
             self.emit(d + '[kwh]', lambda: reg.adapter_hook(provided=prov, object=o1, name=''))
@@ -831,8 +847,49 @@ class Program:
         rng = self.rng
         o = rng.choice(self.odd)
         I = self.iface()
-        k = rng.choice(['pb', 'ipb', 'adapt', 'qa', 'dp', 'ib', 'getspec', 'descr'])
-        if k == 'descr':
+        k = rng.choice(['pb', 'ipb', 'adapt', 'qa', 'dp', 'ib', 'getspec', 'descr', 'pbmut'])
+        if k == 'pbmut':
+            # an object whose declaration is computed, and computing it changes the registry that is adapting the object
+            # (the factory for this very key is replaced): the answer is asked before, during and after
+            prog = self
+            reg = rng.choice(self.regs)
+            kls = rng.choice(self.classes)
+            spec = implementedBy(kls)
+            v1, v2 = self.newval(), self.newval()
+            v1.ret = v2.ret = True
+
+            class Computed(kls):
+                zname = 'computed'
+                armed = False
+
+                @property
+                def __providedBy__(self_):
+                    if Computed.armed:
+                        Computed.armed = False
+                        reg.register([spec], I, '', v2)
+                    return spec
+            oc = Computed()
+            how = rng.choice(['adapter_hook', 'queryAdapter', 'call'])
+
+            def ask():
+                if how == 'adapter_hook':
+                    return reg.adapter_hook(I, oc, '', 'D')
+                if how == 'queryAdapter':
+                    return reg.queryAdapter(oc, I, '', 'D')
+                saved = list(zi.adapter_hooks)
+                zi.adapter_hooks[:] = [reg.adapter_hook]
+                try:
+                    return I(oc, 'D')
+                finally:
+                    zi.adapter_hooks[:] = saved
+            self.emit('pbmut.register', lambda: reg.register([spec], I, '', v1))
+            self.emit('pbmut.%s [warm]' % how, ask)
+            Computed.armed = True
+            self.emit('pbmut.%s [declaration replaces the factory]' % how, ask)
+            Computed.armed = False
+            self.emit('pbmut.%s [after]' % how, ask)
+            self.emit('pbmut.lookup [after]', lambda: reg.lookup([spec], I, ''))
+        elif k == 'descr':
             # the descriptor protocol allows the owner to be omitted
             from zope.interface.declarations import objectSpecificationDescriptor as osd
             o2 = rng.choice(self.objs)
